@@ -1716,6 +1716,9 @@ def prepend_package(builderT:Type[ISystemBuilder], package:str) -> Type[ISystemB
             for m in package.split('.'):
                 prependedpackage = system.Package(
                     system, m, prependedpackage)
+                # There is no source to process for this package: it's complete as it is.
+                # (it must not be left UNPROCESSED, importing from it would try to process it)
+                prependedpackage.state = ProcessingState.PROCESSED
                 system.addObject(prependedpackage)
         
         def addModule(self, path: Path, parent_name: Optional[str] = None, ) -> None:
